@@ -89,3 +89,12 @@ impl CryptoRngCore for NullRng {
     #[verifier::external_body]
     fn fill_bytes(&mut self, dest: &mut [u8]) { unimplemented!() }
 }
+// rand_core::OsRng (the operating system's generator, used by RangeProof::prove): a stateless handle; what it returns is not specified
+pub struct OsRng;
+pub uninterp spec fn os_rng_state() -> RngSt;
+impl CryptoRngCore for OsRng {
+    open spec fn rng_state(&self) -> RngSt { os_rng_state() }
+    open spec fn rng_step(st: RngSt) -> RngSt { st }
+    #[verifier::external_body]
+    fn fill_bytes(&mut self, dest: &mut [u8]) { unimplemented!() }
+}
